@@ -4,8 +4,11 @@ package c13
 // functions' parameter constraints: empty and non-empty collections,
 // duplicates, nulls where allowed (and sometimes where not), list/tuple and
 // map/object forms, indices / sizes / steps in -(len+2)..(len+2) plus halves,
-// 2^40 and the int64 boundaries, and a small share of arguments of the wrong
-// kind or number (on which the reference expects an error).
+// 2^40 and the int64 boundaries, empty collections of every element type
+// (cty.DynamicPseudoType and types with dynamic parts included: emptyOf),
+// range steps that are not short binary fractions (rangeFractional), and a
+// small share of arguments of the wrong kind or number (on which the
+// reference expects an error).
 
 import (
 	"math"
@@ -37,7 +40,43 @@ func elemTy(r *core.Rand) cty.Type {
 	return gen.Type(r, 2, gen.TypeOpts{}).Cty()
 }
 
-func val(r *core.Rand, ty cty.Type, maxLen int) cty.Value { return gen.Value(r, ty, vopts(r, maxLen)) }
+// val draws a value of the given type. Where a list, set or map is asked for, one draw in 16 is
+// an EMPTY collection of that kind whose element type is drawn afresh from the whole type
+// language: primitive, structured, with dynamic parts inside, or cty.DynamicPseudoType itself
+// (what an empty collection made from untyped input looks like, e.g. an empty tuple converted to
+// a set). A known collection of a not fully concrete element type can only be an empty one, and
+// only through these values do such element types reach the functions at all.
+func val(r *core.Rand, ty cty.Type, maxLen int) cty.Value {
+	if (ty.IsListType() || ty.IsSetType() || ty.IsMapType()) && r.Chance(1, 16) {
+		return emptyOf(r, ty)
+	}
+	return gen.Value(r, ty, vopts(r, maxLen))
+}
+
+// emptyElemTy draws the element type of an empty collection.
+func emptyElemTy(r *core.Rand) cty.Type {
+	switch r.Intn(8) {
+	case 0, 1, 2:
+		return cty.DynamicPseudoType
+	case 3:
+		return gen.Type(r, 3, gen.TypeOpts{Dynamic: true}).Cty()
+	case 4:
+		return gen.Type(r, 3, gen.TypeOpts{}).Cty()
+	}
+	return primTy(r)
+}
+
+// emptyOf: the empty collection of the kind of ty (list, set or map).
+func emptyOf(r *core.Rand, ty cty.Type) cty.Value {
+	ety := emptyElemTy(r)
+	switch {
+	case ty.IsListType():
+		return cty.ListValEmpty(ety)
+	case ty.IsSetType():
+		return cty.SetValEmpty(ety)
+	}
+	return cty.MapValEmpty(ety)
+}
 
 func tupleTy(r *core.Rand, maxLen int, et func(*core.Rand) cty.Type) cty.Type {
 	n := r.Intn(maxLen + 1)
@@ -498,9 +537,95 @@ func rangeNearBoundary(r *core.Rand) []cty.Value {
 	return []cty.Value{mk(start), mk(end), mk(s)}
 }
 
+// Decimal fractions (and two thirds-like quotients) that no binary mantissa holds exactly: with
+// such a step the running sums round, at every precision.
+var rangeFracs = []string{"0.1", "0.2", "0.3", "0.7", "0.9", "1.1", "2.3", "0.01", "0.05", "0.15", "0.333", "1e-3", "0.6", "12.7"}
+
+// numAt builds the number written as the decimal text s the way the different producers of cty
+// numbers do: from a float64 (53 bits: gocty, JSON / msgpack floats), parsed (512 bits: HCL, JSON
+// numbers), from a float32 (24 bits) or at 64 bits (what arithmetic on integer-made numbers yields).
+func numAt(r *core.Rand, q *big.Rat) cty.Value {
+	f64, _ := q.Float64()
+	switch k := r.Intn(16); {
+	case k < 7:
+		return cty.NumberFloatVal(f64)
+	case k < 14:
+		return cty.NumberVal(new(big.Float).SetPrec(512).SetRat(q)) // what MustParseNumberVal gives for the decimal text
+	case k == 14:
+		return cty.NumberVal(new(big.Float).SetPrec(24).SetRat(q))
+	}
+	return cty.NumberVal(new(big.Float).SetPrec(64).SetRat(q))
+}
+
+// rangeFractional: three-argument ranges whose step is not a short binary fraction. start is 0, a
+// small whole number or another such fraction; end lies n steps away (exactly, in decimal
+// arithmetic, or a little before / after), n mostly 1..24 and now and then around the 1024 cap.
+// Here "add the step repeatedly" and "start + k*step" part in the elements and, where the exact
+// end is hit or missed by a rounded sum, in the element count.
+func rangeFractional(r *core.Rand) []cty.Value {
+	rat := func(s string) *big.Rat { q, _ := new(big.Rat).SetString(s); return q }
+	step := rat(rangeFracs[r.Intn(len(rangeFracs))])
+	switch r.Intn(12) {
+	case 0:
+		step = big.NewRat(1, 3)
+	case 1:
+		step = big.NewRat(2, 7)
+	}
+	var start *big.Rat
+	switch r.Intn(4) {
+	case 0:
+		start = new(big.Rat)
+	case 1:
+		start = big.NewRat(int64(r.Intn(7)-3), 1)
+	case 2:
+		start = rat(rangeFracs[r.Intn(len(rangeFracs))])
+	default:
+		start = new(big.Rat).Mul(step, big.NewRat(int64(r.Intn(5)), 1))
+	}
+	n := int64(1 + r.Intn(24))
+	switch r.Intn(120) {
+	case 0:
+		n = int64(1020 + r.Intn(8))
+	case 1, 2:
+		n = int64(100 + r.Intn(400))
+	}
+	end := new(big.Rat).Add(start, new(big.Rat).Mul(step, big.NewRat(n, 1)))
+	switch r.Intn(6) {
+	case 0:
+		end.Add(end, new(big.Rat).Quo(step, big.NewRat(2, 1)))
+	case 1:
+		end.Sub(end, new(big.Rat).Quo(step, big.NewRat(4, 1)))
+	}
+	if r.Bool() {
+		// mirrored: counting downwards
+		start.Neg(start)
+		end.Neg(end)
+		step = new(big.Rat).Neg(step)
+	}
+	out := []cty.Value{numAt(r, start), numAt(r, end), numAt(r, step)}
+	if r.Chance(1, 2) {
+		// one producer for all three, the common situation
+		switch r.Intn(2) {
+		case 0:
+			for i, q := range []*big.Rat{start, end, step} {
+				f, _ := q.Float64()
+				out[i] = cty.NumberFloatVal(f)
+			}
+		default:
+			for i, q := range []*big.Rat{start, end, step} {
+				out[i] = cty.NumberVal(new(big.Float).SetPrec(512).SetRat(q))
+			}
+		}
+	}
+	return out
+}
+
 func genRange(r *core.Rand) []cty.Value {
 	if r.Chance(1, 8) {
 		return rangeNearBoundary(r)
+	}
+	if r.Chance(1, 6) {
+		return rangeFractional(r)
 	}
 	n := r.Weighted([]int{0, 3, 4, 8})
 	if r.Chance(1, 60) {
